@@ -10,6 +10,14 @@ NOTE = ("Trusted base: go/types (type checking and constant evaluation), golang.
         "The check decides the named structural clauses only; the value-level remainder listed in the evidence under not_covered is not claimed.")
 
 CLAIMED = {
+ "C10": dict(level="other",
+   technique="static analysis: who-may-call and lock-bracket dominance on the exchange path of package kmipclient; teardown-before-error-exit dominance after the request hand-off; per-connection ownership of hand-off channels",
+   text="Decides the structural reasons why a caller can only get its own response, for every interleaving at once: an exchange exists only inside doRountrip between Lock and the deferred Unlock of a mutex every constructor creates afresh; once the request has been handed to the connection every error exit of the exchange is dominated by a teardown (the missing teardown when the context ends between send and recv is repaired and guarded), so no connection with a response still in flight is ever reused; channels are created per connection, the old connection is closed before a new one replaces it, and send/recv refuse a closed connection. Server-side reordering and the end-to-end statement under a real scheduler are not decided.",
+   ref="§4 C10"),
+ "C11": dict(level="other",
+   technique="static analysis: loop-bound recogniser (constant counter, decrement on the single back edge, guard) and retry-set reachability on doRountrip; the C08 channel-discipline rules instantiated for the client connection; goroutine inventory",
+   text="Decides the bounded-retry and no-panic/no-leak structure of the client for every fault point: at most four transmissions per call (counter 3, decremented on the only back edge, tested before retrying, one hand-off per send), retry reachable only through errors.Is(err, io.EOF/io.ErrClosedPipe) after closing the old connection, no channel closed under a concurrent sender and a buffered reply channel (both defects repaired and guarded), every blocking channel operation releasable by teardown, a closed client failing with an error outside the retry set, and only the two per-connection loops as goroutines. Promptness and recovery against a live server are runtime matters and not decided.",
+   ref="§4 C11"),
  "C08": dict(level="other",
    technique="static analysis: channel-discipline rules over the SSA of package kmipserver (close-by-sole-sender, buffered reply hand-off, select-with-Done release of every blocking operation), deferred-recover dominance around handler invocation, path counting of sends in the connection loop",
    text="Decides the structural conditions under which no client behaviour or handler outcome can crash, wedge or leak the server: no channel is closed by anyone but its sole sender (the racy close that crashed the process is repaired and guarded), the per-message reply channel is buffered so the write loop cannot be left blocked, every handler invocation is dominated by a deferred recover() that yields a failed item, each path around the connection loop handles one request and sends exactly one response with no goroutine spawned on the way and a single stream writer (order by construction), an undecodable but framed request gets one Invalid Message response without teardown, and every blocking channel operation has a <-ctx.Done() alternative with terminate cancelling first. Deadlock-freedom and liveness under a scheduler are not decided.",
